@@ -179,6 +179,7 @@ impl WScenario {
 fn val_payload(v: &Val) -> Option<Vec<u8>> {
     match v {
         Val::Arr(a) => Some(array_payload(a)),
+        Val::Nothing => Some(Vec::new()),
         _ => None,
     }
 }
@@ -358,7 +359,7 @@ pub fn reader_scenarios(tier: Tier) -> (Vec<RScenario>, u32, String) {
 }
 
 pub fn writer_scenarios(tier: Tier) -> (Vec<WScenario>, u32, String) {
-    let vals = vec![Val::Arr(vec![5]), Val::Arr(vec![]), Val::Arr(vec![1, 2]), Val::FailEnc, Val::PartialFail];
+    let vals = vec![Val::Arr(vec![5]), Val::Arr(vec![]), Val::Arr(vec![1, 2]), Val::FailEnc, Val::PartialFail, Val::Nothing];
     let (max_vals, interrupts) = match tier {
         Tier::Quick => (2, 1),
         Tier::Thorough => (3, 2),
@@ -430,7 +431,7 @@ pub fn writer_scenarios(tier: Tier) -> (Vec<WScenario>, u32, String) {
         out.push(WScenario { values: vec![small.clone(), tiny.clone()], max_len: Some(2), ctor: 0, relimit: Some((0, 3)) });
     }
     let bound = format!(
-        "0..={} values over {} kinds, max_len in {{default, 1, 2, 3}}, plus values with payloads of 255..65537 bytes (max_len L-1, L, default; writes of more than 32 bytes accepted whole or, as one deviation each, 1 / half / all-but-one bytes); Writer::new and Writer::with_buffer(recycled buffer, also one with 640 KiB of capacity); set_max_len lowered / raised after a value on a used writer (11 scenarios); limits 600000 (with values of 512 KiB and 512 KiB + 1) and 2^31-1 .. u32::MAX; all splits of every write into accepted sizes; <= {} Interrupted errors anywhere",
+        "0..={} values over {} kinds (3 arrays, 2 failing encoders, 1 value that encodes to zero bytes), max_len in {{default, 1, 2, 3}}, plus values with payloads of 255..65537 bytes (max_len L-1, L, default; writes of more than 32 bytes accepted whole or, as one deviation each, 1 / half / all-but-one bytes); Writer::new and Writer::with_buffer(recycled buffer, also one with 640 KiB of capacity); set_max_len lowered / raised after a value on a used writer (11 scenarios); limits 600000 (with values of 512 KiB and 512 KiB + 1) and 2^31-1 .. u32::MAX; all splits of every write into accepted sizes; <= {} Interrupted errors anywhere",
         max_vals, vals.len(), interrupts
     );
     (out, interrupts, bound)
